@@ -36,10 +36,19 @@ Proof.
   unfold a, b, c in Hq. nra.
 Qed.
 
-(** the path length handed to the OPD is the recorded opd minus that distance (nothing else is read) *)
-Theorem wf_path_length_reads_only_the_ray (xc yc zc r opd x y z L M N : R) :
-  k_wf_path_length ROps xc yc zc r opd x y z L M N = opd - k_wf_opd_image_to_xp ROps xc yc zc r x y z L M N.
+(** the path length handed to the OPD is the recorded opd minus that distance, weighted by |n| of the
+    image-space medium when a wavelength is given (and by 1 otherwise); nothing else is read *)
+Theorem wf_path_length_reads_only_the_ray (xc yc zc r opd n x y z L M N : R) :
+  k_wf_path_length ROps xc yc zc r opd n x y z L M N =
+  opd - Rabs n * k_wf_opd_image_to_xp ROps xc yc zc r x y z L M N.
 Proof. reflexivity. Qed.
+
+Theorem wf_path_length_vac_reads_only_the_ray (xc yc zc r opd x y z L M N : R) :
+  k_wf_path_length_vac ROps xc yc zc r opd x y z L M N = opd - k_wf_opd_image_to_xp ROps xc yc zc r x y z L M N.
+Proof.
+  unfold k_wf_path_length_vac. rops. unfold Rlit; simpl.
+  set (k := k_wf_opd_image_to_xp ROps xc yc zc r x y z L M N). lra.
+Qed.
 
 (** hypotheses satisfiable: axial ray at the image point, reference sphere of radius 2 centred there *)
 Example wf_on_sphere_hypotheses_satisfiable :
